@@ -6,8 +6,10 @@ found, nothing else is found), `inv_init`, `inv_swap`, `inv_cascade`, `inv_remov
 `inv_dischargeSwap`, `inv_step`, `inv_run` (induction over arbitrary histories), `purged_not_found`,
 `transfer_contents` (contents unchanged / stationary blocks exchanged in place), `swap_keeps_inventory`,
 `removeAssembly_spec`, `conservation_run` (multiset ledger), `swap_contents`, `dischargeSwap_contents`,
-block lookups: `blocks_found_run_partial` (stationary blocks, tracking on, no purge) and `blocks_run_with_purge`
-(any history incl. purges, stationary-block feature not in play: found AND nothing else found).
+block lookups: `blocks_run_with_purge` (any history incl. purges and stationary blocks changing hands: found AND
+nothing else found; only a fresh assembly with stationary blocks is excluded), `blocks_found_run_partial` (older,
+weaker); names: `coreAdd_fresh_keys_current`, `finding_pooled_block_not_found`, `finding_stale_key_returns_purged`,
+`repaired_discharge_keys_current`.
 -/
 import ArmiVerif.Model.Shuffle
 import Mathlib.Data.List.Nodup
@@ -25,6 +27,80 @@ private theorem updCore_ids (core : List (Asm × Cell)) (i : Nat) (a : Asm) (c :
   · simp [ha, *]
   · rfl
 
+private theorem xchg_length (xs ys : List Blk) : (xchg xs ys).1.length = xs.length ∧ (xchg xs ys).2.length = ys.length := by
+  induction xs generalizing ys with
+  | nil => cases ys <;> simp [xchg]
+  | cons x xs ih =>
+    cases ys with
+    | nil => simp [xchg]
+    | cons y ys =>
+      have := ih ys
+      simp only [xchg]
+      split <;> simp [this.1, this.2]
+
+private theorem xchg_perm (xs ys : List Blk) : ((xchg xs ys).1 ++ (xchg xs ys).2).Perm (xs ++ ys) := by
+  induction xs generalizing ys with
+  | nil => cases ys <;> simp [xchg]
+  | cons x xs ih =>
+    cases ys with
+    | nil => simp [xchg]
+    | cons y ys =>
+      have h := ih ys
+      simp only [xchg]
+      split
+      · -- (y :: r1) ++ (x :: r2) ~ (x :: xs) ++ (y :: ys)
+        refine (List.perm_middle.trans ?_).trans List.perm_middle.symm
+        refine (List.Perm.cons _ (List.Perm.cons _ h)).trans ?_
+        exact (List.Perm.swap _ _ _).trans (List.Perm.cons _ List.perm_middle.symm) |>.trans (by
+          simp only [List.cons_append]; exact List.Perm.cons _ (List.perm_middle))
+      · refine (List.perm_middle.trans ?_).trans List.perm_middle.symm
+        exact (List.Perm.swap _ _ _).trans (List.Perm.cons _ (List.Perm.cons _ h)) |>.trans (List.Perm.swap _ _ _)
+
+private theorem xchg_left (xs ys : List Blk) (k : Nat) (hk : k < xs.length) :
+    (xchg xs ys).1[k]? = some (if (xs[k]).stat then ys.getD k (xs[k]) else xs[k]) := by
+  induction xs generalizing ys k with
+  | nil => simp at hk
+  | cons x xs ih =>
+    cases ys with
+    | nil => simp [xchg]
+    | cons y ys =>
+      simp only [xchg]
+      cases k with
+      | zero => split <;> simp [*]
+      | succ k =>
+        have := ih ys k (by simpa using hk)
+        split <;> simpa using this
+
+private theorem xchg_right (xs ys : List Blk) (k : Nat) (hk : k < ys.length) :
+    (xchg xs ys).2[k]? = some (match xs[k]? with
+      | some x => if x.stat then x else ys[k]
+      | none => ys[k]) := by
+  induction xs generalizing ys k with
+  | nil => cases ys with
+    | nil => simp at hk
+    | cons y ys => simp [xchg]
+  | cons x xs ih =>
+    cases ys with
+    | nil => simp at hk
+    | cons y ys =>
+      simp only [xchg]
+      cases k with
+      | zero => split <;> simp [*]
+      | succ k =>
+        have := ih ys k (by simpa using hk)
+        split <;> simpa using this
+
+private theorem xchg_nostat (xs ys : List Blk) (h : ∀ b ∈ xs, b.stat = false) : xchg xs ys = (xs, ys) := by
+  induction xs generalizing ys with
+  | nil => cases ys <;> simp [xchg]
+  | cons x xs ih =>
+    cases ys with
+    | nil => simp [xchg]
+    | cons y ys =>
+      have hx : x.stat = false := h x List.mem_cons_self
+      have := ih ys (fun b hb => h b (List.mem_cons_of_mem _ hb))
+      simp [xchg, hx, this]
+
 private theorem transfer_ids (a1 a2 a1' a2' : Asm) (h : transfer a1 a2 = some (a1', a2')) :
     a1'.id = a1.id ∧ a2'.id = a2.id ∧ a1'.blocks.length = a1.blocks.length ∧ a2'.blocks.length = a2.blocks.length := by
   unfold transfer at h
@@ -32,7 +108,7 @@ private theorem transfer_ids (a1 a2 a1' a2' : Asm) (h : transfer a1 a2 = some (a
   · exact absurd h (by simp)
   · simp only [Option.some.injEq, Prod.mk.injEq] at h
     obtain ⟨rfl, rfl⟩ := h
-    simp
+    exact ⟨rfl, rfl, (xchg_length _ _).1, (xchg_length _ _).2⟩
 
 /-- **moves never alter an assembly's contents, except that stationary blocks exchange assemblies and keep their
 axial position**: after `_transferStationaryBlocks` every non-stationary position of each assembly holds the block it
@@ -44,7 +120,7 @@ theorem transfer_contents (a1 a2 a1' a2' : Asm) (h : transfer a1 a2 = some (a1',
   · exact absurd h (by simp)
   · simp only [Option.some.injEq, Prod.mk.injEq] at h
     obtain ⟨rfl, _⟩ := h
-    simp [List.getElem?_map, List.getElem?_zipIdx, hk]
+    exact xchg_left _ _ k hk
 
 /-- a swap is refused exactly when the stationary blocks of the two assemblies sit at different axial positions;
 a refused transfer mutates nothing (the model returns no state). -/
@@ -1090,15 +1166,19 @@ theorem conservation_run (ops : List Op) (s : St) (hI : Inv s) (hok : RunOK s op
 
 end Ledger
 
+/-- the second assembly: where the FIRST assembly's block of that axial position is stationary (equivalently, under
+the guard of `transfer`, its own) it receives that block, elsewhere it keeps its own -/
 theorem transfer_contents_right (a1 a2 a1' a2' : Asm) (h : transfer a1 a2 = some (a1', a2')) (k : Nat)
     (hk : k < a2.blocks.length) :
-    a2'.blocks[k]? = some (if (a2.blocks[k]).stat then a1.blocks.getD k (a2.blocks[k]) else a2.blocks[k]) := by
+    a2'.blocks[k]? = some (match a1.blocks[k]? with
+      | some x => if x.stat then x else a2.blocks[k]
+      | none => a2.blocks[k]) := by
   unfold transfer at h
   split at h
   · exact absurd h (by simp)
   · simp only [Option.some.injEq, Prod.mk.injEq] at h
     obtain ⟨_, rfl⟩ := h
-    simp [hk]
+    exact xchg_right _ _ k hk
 
 /-- **contents and stationary blocks under `swapAssemblies`**: afterwards assembly `i1` sits at `i2`'s old cell and
 vice versa; at every axial position a non-stationary block is still in its own assembly (block order unchanged),
@@ -1111,7 +1191,9 @@ theorem swap_contents (s s' : St) (i1 i2 : Nat) (hne : i1 ≠ i2) (h : swap s i1
       (∀ k (hk : k < a1.blocks.length), a1'.blocks[k]? =
           some (if (a1.blocks[k]).stat then a2.blocks.getD k (a1.blocks[k]) else a1.blocks[k])) ∧
       (∀ k (hk : k < a2.blocks.length), a2'.blocks[k]? =
-          some (if (a2.blocks[k]).stat then a1.blocks.getD k (a2.blocks[k]) else a2.blocks[k])) ∧
+          some (match a1.blocks[k]? with
+            | some x => if x.stat then x else a2.blocks[k]
+            | none => a2.blocks[k])) ∧
       (∀ p : Asm × Cell, p.1.id ≠ i1 → p.1.id ≠ i2 → (p ∈ s'.core ↔ p ∈ s.core)) := by
   obtain ⟨a1, c1, a2, c2, a1', a2', m1, m2, k1, k2, ht, hcore, _⟩ := swap_shape s s' i1 i2 hne h hnd
   obtain ⟨e1, e2, _, _⟩ := transfer_ids _ _ _ _ ht
@@ -1208,32 +1290,20 @@ theorem dischargeSwap_contents (s s' : St) (incoming : Asm) (outId : Nat)
 def BlkFound (s : St) : Prop :=
   (∀ p ∈ s.core, ∀ b ∈ p.1.blocks, s.bbn b.bid = true) ∧ (∀ a ∈ s.sfp, ∀ b ∈ a.blocks, s.bbn b.bid = true)
 
-private theorem transfer_subset (a1 a2 a1' a2' : Asm) (h : transfer a1 a2 = some (a1', a2')) :
-    (∀ b ∈ a1'.blocks, b ∈ a1.blocks ∨ b ∈ a2.blocks) ∧ (∀ b ∈ a2'.blocks, b ∈ a1.blocks ∨ b ∈ a2.blocks) := by
+private theorem transfer_perm (a1 a2 a1' a2' : Asm) (h : transfer a1 a2 = some (a1', a2')) :
+    (a1'.blocks ++ a2'.blocks).Perm (a1.blocks ++ a2.blocks) := by
   unfold transfer at h
   split at h
   · exact absurd h (by simp)
   · simp only [Option.some.injEq, Prod.mk.injEq] at h
     obtain ⟨rfl, rfl⟩ := h
-    constructor
-    · intro b hb
-      simp only [List.mem_map] at hb
-      obtain ⟨⟨x, k⟩, hx, rfl⟩ := hb
-      have hx1 : x ∈ a1.blocks := (List.mem_zipIdx hx).2.2 ▸ List.getElem_mem _
-      split
-      · by_cases hk : k < a2.blocks.length
-        · right; simp [List.getD_eq_getElem?_getD, List.getElem?_eq_getElem hk]
-        · left; simp [List.getD_eq_getElem?_getD, List.getElem?_eq_none (Nat.le_of_not_lt hk)]; exact hx1
-      · left; exact hx1
-    · intro b hb
-      simp only [List.mem_map] at hb
-      obtain ⟨⟨x, k⟩, hx, rfl⟩ := hb
-      have hx1 : x ∈ a2.blocks := (List.mem_zipIdx hx).2.2 ▸ List.getElem_mem _
-      split
-      · by_cases hk : k < a1.blocks.length
-        · left; simp [List.getD_eq_getElem?_getD, List.getElem?_eq_getElem hk]
-        · right; simp [List.getD_eq_getElem?_getD, List.getElem?_eq_none (Nat.le_of_not_lt hk)]; exact hx1
-      · right; exact hx1
+    exact xchg_perm _ _
+
+private theorem transfer_subset (a1 a2 a1' a2' : Asm) (h : transfer a1 a2 = some (a1', a2')) :
+    (∀ b ∈ a1'.blocks, b ∈ a1.blocks ∨ b ∈ a2.blocks) ∧ (∀ b ∈ a2'.blocks, b ∈ a1.blocks ∨ b ∈ a2.blocks) := by
+  have hp := transfer_perm _ _ _ _ h
+  exact ⟨fun b hb => List.mem_append.1 (hp.mem_iff.1 (List.mem_append_left _ hb)),
+    fun b hb => List.mem_append.1 (hp.mem_iff.1 (List.mem_append_right _ hb))⟩
 
 private theorem statIdx_nil_iff (a : Asm) : statIdx a = [] ↔ ∀ b ∈ a.blocks, b.stat = false := by
   unfold statIdx
@@ -1253,22 +1323,9 @@ theorem transfer_no_stat (a1 a2 a1' a2' : Asm) (h : transfer a1 a2 = some (a1', 
   unfold transfer at h
   split at h
   · exact absurd h (by simp)
-  · rename_i heq
-    have heq' : statIdx a1 = statIdx a2 := by simpa using heq
-    have hns2 : ∀ b ∈ a2.blocks, b.stat = false := (statIdx_nil_iff a2).1 (heq' ▸ (statIdx_nil_iff a1).2 hns)
-    simp only [Option.some.injEq, Prod.mk.injEq] at h
+  · simp only [Option.some.injEq, Prod.mk.injEq] at h
     obtain ⟨rfl, rfl⟩ := h
-    constructor
-    · show a1.blocks.zipIdx.map _ = a1.blocks
-      conv_rhs => rw [← List.zipIdx_map_fst 0 a1.blocks]
-      apply List.map_congr_left
-      intro x hx
-      simp [hns x.1 (List.fst_mem_of_mem_zipIdx hx)]
-    · show a2.blocks.zipIdx.map _ = a2.blocks
-      conv_rhs => rw [← List.zipIdx_map_fst 0 a2.blocks]
-      apply List.map_congr_left
-      intro x hx
-      simp [hns2 x.1 (List.fst_mem_of_mem_zipIdx hx)]
+    rw [xchg_nostat _ _ hns]; exact ⟨rfl, rfl⟩
 
 private theorem blkFound_swap (s s' : St) (i1 i2 : Nat) (hne : i1 ≠ i2) (h : swap s i1 i2 = some s')
     (hnd : (s.core.map (·.1.id)).Nodup) (hB : BlkFound s) : BlkFound s' := by
@@ -1585,7 +1642,7 @@ example : BlkFound (run exSt [.swap 1 2, .cascade [1, 2, 3], .dsfp 9 1, .remove 
 
 
 
-/-! ### blocks with purging (stationary-block feature disabled) -/
+/-! ### blocks with purging and stationary blocks -/
 
 /-- `a` is one of the assemblies the reactor holds (core child or pool child) -/
 def Holds (s : St) (a : Asm) : Prop := (∃ c, (a, c) ∈ s.core) ∨ a ∈ s.sfp
@@ -1593,16 +1650,16 @@ def Holds (s : St) (a : Asm) : Prop := (∃ c, (a, c) ∈ s.core) ∨ a ∈ s.sf
 abbrev NoStat (a : Asm) : Prop := ∀ b ∈ a.blocks, b.stat = false
 
 /-- block-level invariant for histories that may purge: every block present is found, nothing else is found
-(blocks of purged assemblies in particular), different assemblies share no block -/
+(blocks of purged assemblies in particular), different assemblies share no block, no assembly holds a block twice -/
 structure BInv (s : St) : Prop where
-  nostat : ∀ a, Holds s a → NoStat a
+  nodupIn : ∀ a, Holds s a → (a.blocks.map (·.bid)).Nodup
   found : ∀ a, Holds s a → ∀ b ∈ a.blocks, s.bbn b.bid = true
   only : ∀ x, s.bbn x = true → ∃ a, Holds s a ∧ ∃ b ∈ a.blocks, b.bid = x
   disj : ∀ a a', Holds s a → Holds s a' → a.id ≠ a'.id → ∀ b ∈ a.blocks, ∀ b' ∈ a'.blocks, b.bid ≠ b'.bid
 
 private theorem binv_of_holds_iff (s t : St) (hm : ∀ a, Holds t a ↔ Holds s a) (hb : t.bbn = s.bbn)
     (h : BInv s) : BInv t := by
-  refine ⟨fun a ha => h.nostat a ((hm a).1 ha), fun a ha b hb' => by rw [hb]; exact h.found a ((hm a).1 ha) b hb',
+  refine ⟨fun a ha => h.nodupIn a ((hm a).1 ha), fun a ha b hb' => by rw [hb]; exact h.found a ((hm a).1 ha) b hb',
     ?_, fun a a' ha ha' => h.disj a a' ((hm a).1 ha) ((hm a').1 ha')⟩
   intro x hx
   rw [hb] at hx
@@ -1624,54 +1681,105 @@ private theorem holds_unique (s : St) (hI : Inv s) (a b : Asm) (ha : Holds s a) 
   · exact absurd hid.symm (hdisj _ (List.mem_map.2 ⟨_, hb, rfl⟩) _ (List.mem_map.2 ⟨_, ha, rfl⟩))
   · exact List.inj_on_of_nodup_map hnds ha hb hid
 
-private theorem swap_holds (s s' : St) (i1 i2 : Nat) (hne : i1 ≠ i2) (h : swap s i1 i2 = some s') (hI : Inv s)
-    (hns : ∀ a, Holds s a → NoStat a) : (∀ a, Holds s' a ↔ Holds s a) ∧ s'.bbn = s.bbn := by
-  have hndc : (s.core.map (·.1.id)).Nodup := (List.nodup_append.1 hI.nodup).1
-  obtain ⟨a1, c1, a2, c2, a1', a2', m1, m2, k1, k2, ht, hcore, _, hsfp, _, hbbn, _⟩ := swap_shape s s' i1 i2 hne h hndc
-  obtain ⟨e1, e2, _, _⟩ := transfer_ids _ _ _ _ ht
-  obtain ⟨b1, b2⟩ := transfer_no_stat _ _ _ _ ht (hns a1 (Or.inl ⟨c1, m1⟩))
-  have x1 : a1' = a1 := asm_ext _ _ e1 b1
-  have x2 : a2' = a2 := asm_ext _ _ e2 b2
-  subst x1; subst x2
-  refine ⟨fun a => ?_, hbbn⟩
-  unfold Holds
-  rw [hsfp, hcore]
-  constructor
-  · rintro (⟨c, hc⟩ | hs)
-    · left
-      obtain ⟨p, hp, hpe⟩ := List.mem_map.1 hc
-      by_cases hp1 : p.1.id = i1
-      · rw [if_pos hp1] at hpe
-        obtain ⟨rfl, rfl⟩ := Prod.mk.inj hpe
-        exact ⟨c1, m1⟩
-      · by_cases hp2 : p.1.id = i2
-        · rw [if_neg hp1, if_pos hp2] at hpe
-          obtain ⟨rfl, rfl⟩ := Prod.mk.inj hpe
-          exact ⟨c2, m2⟩
-        · rw [if_neg hp1, if_neg hp2] at hpe
-          exact ⟨c, hpe ▸ hp⟩
-    · exact Or.inr hs
-  · rintro (⟨c, hc⟩ | hs)
-    · left
-      by_cases hp1 : a.id = i1
-      · have : (a, c) = (a1', c1) := ids_inj hndc hc m1 (by simp [hp1, k1])
-        refine ⟨c2, List.mem_map.2 ⟨(a, c), hc, ?_⟩⟩
-        show (if a.id = i1 then (a1', c2) else if a.id = i2 then (a2', c1) else (a, c)) = (a, c2)
-        rw [if_pos hp1, (Prod.mk.inj this).1]
-      · by_cases hp2 : a.id = i2
-        · have : (a, c) = (a2', c2) := ids_inj hndc hc m2 (by simp [hp2, k2])
-          refine ⟨c1, List.mem_map.2 ⟨(a, c), hc, ?_⟩⟩
-          show (if a.id = i1 then (a1', c2) else if a.id = i2 then (a2', c1) else (a, c)) = (a, c1)
-          rw [if_neg hp1, if_pos hp2, (Prod.mk.inj this).1]
-        · refine ⟨c, List.mem_map.2 ⟨(a, c), hc, ?_⟩⟩
-          show (if a.id = i1 then (a1', c2) else if a.id = i2 then (a2', c1) else (a, c)) = (a, c)
-          rw [if_neg hp1, if_neg hp2]
-    · exact Or.inr hs
+/-- two held assemblies trade blocks (their block lists together stay the same multiset): the block-level
+invariant is kept -/
+private theorem binv_exchange (s t : St) (hI : Inv s) (hB : BInv s) (a1 a2 a1' a2' : Asm)
+    (h1 : Holds s a1) (h2 : Holds s a2) (hne : a1.id ≠ a2.id) (e1 : a1'.id = a1.id) (e2 : a2'.id = a2.id)
+    (hp : (a1'.blocks ++ a2'.blocks).Perm (a1.blocks ++ a2.blocks))
+    (hm : ∀ x, Holds t x ↔ (Holds s x ∧ x.id ≠ a1.id ∧ x.id ≠ a2.id) ∨ x = a1' ∨ x = a2')
+    (hb : t.bbn = s.bbn) : BInv t := by
+  have K : ((a1.blocks ++ a2.blocks).map (·.bid)).Nodup := by
+    rw [List.map_append, List.nodup_append]
+    refine ⟨hB.nodupIn a1 h1, hB.nodupIn a2 h2, ?_⟩
+    intro x hx y hy
+    obtain ⟨b, hb1, rfl⟩ := List.mem_map.1 hx
+    obtain ⟨b', hb2, rfl⟩ := List.mem_map.1 hy
+    exact hB.disj a1 a2 h1 h2 hne b hb1 b' hb2
+  have K' : ((a1'.blocks ++ a2'.blocks).map (·.bid)).Nodup := (hp.map _).nodup_iff.2 K
+  rw [List.map_append, List.nodup_append] at K'
+  have memiff : ∀ b, (b ∈ a1'.blocks ∨ b ∈ a2'.blocks) ↔ (b ∈ a1.blocks ∨ b ∈ a2.blocks) := by
+    intro b; rw [← List.mem_append, ← List.mem_append]; exact hp.mem_iff
+  have regold : ∀ b, (b ∈ a1.blocks ∨ b ∈ a2.blocks) → s.bbn b.bid = true := by
+    rintro b (hb1 | hb2)
+    · exact hB.found a1 h1 b hb1
+    · exact hB.found a2 h2 b hb2
+  -- a held assembly other than the two shares no block with the traded ones
+  have disjold : ∀ x, Holds s x → x.id ≠ a1.id → x.id ≠ a2.id → ∀ b ∈ x.blocks, ∀ b',
+      (b' ∈ a1'.blocks ∨ b' ∈ a2'.blocks) → b.bid ≠ b'.bid := by
+    intro x hx n1 n2 b hbx b' hb'
+    rcases (memiff b').1 hb' with h | h
+    · exact hB.disj x a1 hx h1 n1 b hbx b' h
+    · exact hB.disj x a2 hx h2 n2 b hbx b' h
+  refine ⟨?_, ?_, ?_, ?_⟩
+  · intro x hx
+    rcases (hm x).1 hx with ⟨hx, _, _⟩ | rfl | rfl
+    · exact hB.nodupIn x hx
+    · exact K'.1
+    · exact K'.2.1
+  · intro x hx b hbx
+    rw [hb]
+    rcases (hm x).1 hx with ⟨hx, _, _⟩ | rfl | rfl
+    · exact hB.found x hx b hbx
+    · exact regold b ((memiff b).1 (Or.inl hbx))
+    · exact regold b ((memiff b).1 (Or.inr hbx))
+  · intro y hy
+    rw [hb] at hy
+    obtain ⟨a, ha, b, hba, hby⟩ := hB.only y hy
+    by_cases n1 : a.id = a1.id
+    · have := holds_unique s hI a a1 ha h1 n1; subst this
+      rcases (memiff b).2 (Or.inl hba) with h | h
+      · exact ⟨a1', (hm a1').2 (Or.inr (Or.inl rfl)), b, h, hby⟩
+      · exact ⟨a2', (hm a2').2 (Or.inr (Or.inr rfl)), b, h, hby⟩
+    · by_cases n2 : a.id = a2.id
+      · have := holds_unique s hI a a2 ha h2 n2; subst this
+        rcases (memiff b).2 (Or.inr hba) with h | h
+        · exact ⟨a1', (hm a1').2 (Or.inr (Or.inl rfl)), b, h, hby⟩
+        · exact ⟨a2', (hm a2').2 (Or.inr (Or.inr rfl)), b, h, hby⟩
+      · exact ⟨a, (hm a).2 (Or.inl ⟨ha, n1, n2⟩), b, hba, hby⟩
+  · intro x x' hx hx' hxx b hbx b' hbx'
+    rcases (hm x).1 hx with ⟨hx, n1, n2⟩ | rfl | rfl <;> rcases (hm x').1 hx' with ⟨hx', n1', n2'⟩ | rfl | rfl
+    · exact hB.disj x x' hx hx' hxx b hbx b' hbx'
+    · exact disjold x hx n1 n2 b hbx b' (Or.inl hbx')
+    · exact disjold x hx n1 n2 b hbx b' (Or.inr hbx')
+    · exact (disjold x' hx' n1' n2' b' hbx' b (Or.inl hbx)).symm
+    · exact absurd rfl hxx
+    · exact K'.2.2 _ (List.mem_map.2 ⟨b, hbx, rfl⟩) _ (List.mem_map.2 ⟨b', hbx', rfl⟩)
+    · exact (disjold x' hx' n1' n2' b' hbx' b (Or.inr hbx)).symm
+    · exact (K'.2.2 _ (List.mem_map.2 ⟨b', hbx', rfl⟩) _ (List.mem_map.2 ⟨b, hbx, rfl⟩)).symm
+    · exact absurd rfl hxx
 
 private theorem binv_swap (s s' : St) (i1 i2 : Nat) (hne : i1 ≠ i2) (h : swap s i1 i2 = some s') (hI : Inv s)
     (hB : BInv s) : BInv s' := by
-  obtain ⟨hm, hb⟩ := swap_holds s s' i1 i2 hne h hI hB.nostat
-  exact binv_of_holds_iff s s' hm hb hB
+  have hndc : (s.core.map (·.1.id)).Nodup := (List.nodup_append.1 hI.nodup).1
+  have hdisj : ∀ x ∈ coreIds s, ∀ y ∈ sfpIds s, x ≠ y := (List.nodup_append.1 hI.nodup).2.2
+  obtain ⟨a1, c1, a2, c2, a1', a2', m1, m2, k1, k2, ht, hcore, _, hsfp, _, hbbn, _⟩ := swap_shape s s' i1 i2 hne h hndc
+  obtain ⟨e1, e2, _, _⟩ := transfer_ids _ _ _ _ ht
+  refine binv_exchange s s' hI hB a1 a2 a1' a2' (Or.inl ⟨c1, m1⟩) (Or.inl ⟨c2, m2⟩) (by rw [k1, k2]; exact hne) e1 e2
+    (transfer_perm _ _ _ _ ht) ?_ hbbn
+  intro x
+  unfold Holds
+  rw [hsfp, hcore, k1, k2]
+  constructor
+  · rintro (⟨c, hc⟩ | hs)
+    · obtain ⟨p, hp, hpe⟩ := List.mem_map.1 hc
+      by_cases hp1 : p.1.id = i1
+      · rw [if_pos hp1] at hpe; exact Or.inr (Or.inl (Prod.mk.inj hpe).1.symm)
+      · by_cases hp2 : p.1.id = i2
+        · rw [if_neg hp1, if_pos hp2] at hpe; exact Or.inr (Or.inr (Prod.mk.inj hpe).1.symm)
+        · rw [if_neg hp1, if_neg hp2] at hpe
+          subst hpe
+          exact Or.inl ⟨Or.inl ⟨_, hp⟩, hp1, hp2⟩
+    · have hxs : x.id ∈ sfpIds s := List.mem_map.2 ⟨x, hs, rfl⟩
+      exact Or.inl ⟨Or.inr hs,
+        fun e => hdisj i1 (List.mem_map.2 ⟨_, m1, k1⟩) x.id hxs e.symm,
+        fun e => hdisj i2 (List.mem_map.2 ⟨_, m2, k2⟩) x.id hxs e.symm⟩
+  · rintro (⟨⟨c, hc⟩ | hs, n1, n2⟩ | rfl | rfl)
+    · refine Or.inl ⟨c, List.mem_map.2 ⟨(x, c), hc, ?_⟩⟩
+      show (if x.id = i1 then (a1', c2) else if x.id = i2 then (a2', c1) else (x, c)) = (x, c)
+      rw [if_neg n1, if_neg n2]
+    · exact Or.inr hs
+    · exact Or.inl ⟨c2, List.mem_map.2 ⟨(a1, c1), m1, by simp [k1]⟩⟩
+    · exact Or.inl ⟨c1, List.mem_map.2 ⟨(a2, c2), m2, by simp [k2, Ne.symm hne]⟩⟩
 
 private theorem binv_cascadeLoop (a0 : Nat) (l : List Nat) (s : St) (hne : ∀ ak ∈ l, a0 ≠ ak) (hI : Inv s)
     (hB : BInv s) : BInv (cascadeLoop a0 s l).1 := by
@@ -1706,7 +1814,7 @@ private theorem binv_removeAssembly (s s' : St) (i : Nat) (d : Bool) (h : remove
       · rintro ⟨⟨c, hc⟩ | hs, hne⟩
         · exact Or.inl ⟨c, mem_filter_ne.2 ⟨hc, hne⟩⟩
         · exact Or.inr hs
-    refine ⟨fun a ha => hB.nostat a ((hmem a).1 ha).1, ?_, ?_, fun a a' ha ha' => hB.disj a a' ((hmem a).1 ha).1 ((hmem a').1 ha').1⟩
+    refine ⟨fun a ha => hB.nodupIn a ((hmem a).1 ha).1, ?_, ?_, fun a a' ha ha' => hB.disj a a' ((hmem a).1 ha).1 ((hmem a').1 ha').1⟩
     · intro a ha b hb
       obtain ⟨has, hai⟩ := (hmem a).1 ha
       rw [hbbn]
@@ -1766,7 +1874,7 @@ private theorem disj_symm {a x : Asm} (h : ∀ b ∈ a.blocks, ∀ b' ∈ x.bloc
 
 /-- `sfp.remove(a)` (if pooled) + `core.add(a, cell)`: block-level invariant -/
 private theorem binv_putIn (s1 s' : St) (a : Asm) (c : Cell) (h : putIn s1 a.id a c = some s') (hB : BInv s1)
-    (hns : NoStat a) (hU : ∀ x, Holds s1 x → x.id = a.id → x = a)
+    (hns : (a.blocks.map (·.bid)).Nodup) (hU : ∀ x, Holds s1 x → x.id = a.id → x = a)
     (hD : ∀ x, Holds s1 x → x.id ≠ a.id → ∀ b ∈ a.blocks, ∀ b' ∈ x.blocks, b.bid ≠ b'.bid) : BInv s' := by
   unfold putIn coreAdd at h
   dsimp only at h
@@ -1799,7 +1907,7 @@ private theorem binv_putIn (s1 s' : St) (a : Asm) (c : Cell) (h : putIn s1 a.id 
       refine ⟨?_, ?_, ?_, ?_⟩
       · intro x hx
         rcases (hmem x).1 hx with ⟨hx1, _⟩ | rfl
-        · exact hB.nostat x hx1
+        · exact hB.nodupIn x hx1
         · exact hns
       · intro x hx b hb
         rw [hbbn]; simp only [setKeys]
@@ -1827,8 +1935,9 @@ private theorem binv_putIn (s1 s' : St) (a : Asm) (c : Cell) (h : putIn s1 a.id 
         · exact hD x' hx1' hxi'
         · exact absurd rfl hne
 
-private theorem binv_dischargeSwap (s s' : St) (incoming : Asm) (outId : Nat)
+private theorem binv_dischargeSwap_fresh (s s' : St) (incoming : Asm) (outId : Nat)
     (h : dischargeSwap s incoming outId = some s') (hI : Inv s) (hB : BInv s) (hns : NoStat incoming)
+    (hnd : (incoming.blocks.map (·.bid)).Nodup)
     (hU : ∀ x, Holds s x → x.id = incoming.id → x = incoming)
     (hD : ∀ x, Holds s x → x.id ≠ incoming.id → ∀ b ∈ incoming.blocks, ∀ b' ∈ x.blocks, b.bid ≠ b'.bid) :
     BInv s' := by
@@ -1873,13 +1982,104 @@ private theorem binv_dischargeSwap (s s' : St) (incoming : Asm) (outId : Nat)
         simp only [Option.bind_some] at h
         have hB1 := binv_removeAssembly s s1 outId true hrem hI hB
         have hsub := removeAssembly_holds_sub s s1 outId true hrem
-        exact binv_putIn s1 s' inc' c h hB1 hns (fun x hx => hU x (hsub x hx)) (fun x hx => hD x (hsub x hx))
+        exact binv_putIn s1 s' inc' c h hB1 hnd (fun x hx => hU x (hsub x hx)) (fun x hx => hD x (hsub x hx))
 
-/-- extra preconditions of the block-level theorem with purging: charged assemblies carry no stationary block and
-their blocks are new (shared with no assembly the reactor holds) -/
+private theorem inv_xfer (s : St) (hI : Inv s) (incoming out inc' out' : Asm) (c : Cell) (outId : Nat)
+    (hm : (out, c) ∈ s.core) (hid : out.id = outId) (ht : transfer incoming out = some (inc', out')) :
+    Inv (xfer s outId out' c incoming.id inc') := by
+  have hndc : (s.core.map (·.1.id)).Nodup := (List.nodup_append.1 hI.nodup).1
+  obtain ⟨e1, e2, _, _⟩ := transfer_ids _ _ _ _ ht
+  have hsf : (s.sfp.map (fun a => if a.id = incoming.id then inc' else a)).map (·.id) = s.sfp.map (·.id) := by
+    rw [List.map_map]
+    apply List.map_congr_left
+    intro a _
+    simp only [Function.comp]
+    split
+    · rename_i hai; rw [e1, hai]
+    · rfl
+  apply inv_of_same_shape s (xfer s outId out' c incoming.id inc') _ hsf rfl rfl rfl hI
+  show (updCore s.core outId out' c).map (fun p => (p.1.id, p.2)) = s.core.map (fun p => (p.1.id, p.2))
+  unfold updCore
+  rw [List.map_map]
+  apply List.map_congr_left
+  intro p hp
+  simp only [Function.comp]
+  split
+  · rename_i hpi
+    have : p = (out, c) := ids_inj hndc hp hm (by rw [hpi, hid])
+    rw [this]; simp [e2]
+  · rfl
+
+/-- `dischargeSwap` with an incoming assembly from the pool (stationary blocks allowed: they change hands) -/
+private theorem binv_dischargeSwap_pooled (s s' : St) (incoming : Asm) (outId : Nat)
+    (h : dischargeSwap s incoming outId = some s') (hI : Inv s) (hB : BInv s) (hin : incoming ∈ s.sfp) :
+    BInv s' := by
+  have hndc : (s.core.map (·.1.id)).Nodup := (List.nodup_append.1 hI.nodup).1
+  have hnds : (s.sfp.map (·.id)).Nodup := (List.nodup_append.1 hI.nodup).2.1
+  have hdisj : ∀ x ∈ coreIds s, ∀ y ∈ sfpIds s, x ≠ y := (List.nodup_append.1 hI.nodup).2.2
+  unfold dischargeSwap at h
+  split at h
+  · exact absurd h (by simp)
+  · rename_i out c hf
+    obtain ⟨hm, hid⟩ := find_id hf
+    split at h
+    · exact absurd h (by simp)
+    · rename_i inc' out' ht
+      obtain ⟨e1, e2, _, _⟩ := transfer_ids _ _ _ _ ht
+      have hinc_ne : incoming.id ≠ out.id := fun e =>
+        hdisj out.id (List.mem_map.2 ⟨_, hm, rfl⟩) incoming.id (List.mem_map.2 ⟨_, hin, rfl⟩) e.symm
+      have hI0 := inv_xfer s hI incoming out inc' out' c outId hm hid ht
+      -- who is held after the exchange
+      have hholds : ∀ x, Holds (xfer s outId out' c incoming.id inc') x ↔
+          (Holds s x ∧ x.id ≠ incoming.id ∧ x.id ≠ out.id) ∨ x = inc' ∨ x = out' := by
+        intro x
+        unfold Holds xfer updCore
+        constructor
+        · rintro (⟨c', hc⟩ | hs)
+          · obtain ⟨p, hp, hpe⟩ := List.mem_map.1 hc
+            by_cases hp1 : p.1.id = outId
+            · rw [if_pos hp1] at hpe; exact Or.inr (Or.inr (Prod.mk.inj hpe).1.symm)
+            · rw [if_neg hp1] at hpe
+              subst hpe
+              refine Or.inl ⟨Or.inl ⟨_, hp⟩, ?_, by rw [hid]; exact hp1⟩
+              exact fun e => hdisj _ (List.mem_map.2 ⟨_, hp, rfl⟩) incoming.id (List.mem_map.2 ⟨_, hin, rfl⟩) e
+          · obtain ⟨a, ha, hae⟩ := List.mem_map.1 hs
+            by_cases ha1 : a.id = incoming.id
+            · rw [if_pos ha1] at hae; exact Or.inr (Or.inl hae.symm)
+            · rw [if_neg ha1] at hae
+              subst hae
+              refine Or.inl ⟨Or.inr ha, ha1, ?_⟩
+              exact fun e => hdisj out.id (List.mem_map.2 ⟨_, hm, rfl⟩) a.id (List.mem_map.2 ⟨_, ha, rfl⟩) e.symm
+        · rintro (⟨⟨c', hc⟩ | hs, n1, n2⟩ | rfl | rfl)
+          · refine Or.inl ⟨c', List.mem_map.2 ⟨(x, c'), hc, ?_⟩⟩
+            rw [if_neg (by rw [← hid]; exact n2)]
+          · refine Or.inr (List.mem_map.2 ⟨x, hs, ?_⟩)
+            rw [if_neg n1]
+          · exact Or.inr (List.mem_map.2 ⟨incoming, hin, by simp⟩)
+          · exact Or.inl ⟨c, List.mem_map.2 ⟨(out, c), hm, by simp [hid]⟩⟩
+      have hB0 : BInv (xfer s outId out' c incoming.id inc') :=
+        binv_exchange s _ hI hB incoming out inc' out' (Or.inr hin) (Or.inl ⟨c, hm⟩) hinc_ne e1 e2
+          (transfer_perm _ _ _ _ ht) hholds rfl
+      have hinc0 : Holds (xfer s outId out' c incoming.id inc') inc' := (hholds inc').2 (Or.inr (Or.inl rfl))
+      cases hrem : removeAssembly (xfer s outId out' c incoming.id inc') outId true with
+      | none => rw [hrem] at h; exact absurd h (by simp)
+      | some s1 =>
+        rw [hrem] at h
+        simp only [Option.bind_some] at h
+        have hB1 := binv_removeAssembly _ s1 outId true hrem hI0 hB0
+        have hsub := removeAssembly_holds_sub _ s1 outId true hrem
+        rw [← e1] at h
+        exact binv_putIn s1 s' inc' c h hB1 (hB0.nodupIn inc' hinc0)
+          (fun x hx e => holds_unique _ hI0 x inc' (hsub x hx) hinc0 e)
+          (fun x hx hne => hB0.disj inc' x hinc0 (hsub x hx) (Ne.symm hne))
+
+/-- extra preconditions of the block-level theorem: the blocks of a charged assembly are new (distinct, shared
+with no assembly the reactor holds); a FRESH assembly entering through `dischargeSwap` carries no stationary block
+(the excluded point `discharge-fresh-stationary-block-names`). Core and pool assemblies may carry stationary blocks. -/
 def BPreP (s : St) : Op → Prop
-  | .dnew a _ => NoStat a ∧ ∀ x, Holds s x → ∀ b ∈ a.blocks, ∀ b' ∈ x.blocks, b.bid ≠ b'.bid
-  | .add a _ => NoStat a ∧ ∀ x, Holds s x → ∀ b ∈ a.blocks, ∀ b' ∈ x.blocks, b.bid ≠ b'.bid
+  | .dnew a _ => NoStat a ∧ (a.blocks.map (·.bid)).Nodup ∧
+      ∀ x, Holds s x → ∀ b ∈ a.blocks, ∀ b' ∈ x.blocks, b.bid ≠ b'.bid
+  | .add a _ => (a.blocks.map (·.bid)).Nodup ∧ ∀ x, Holds s x → ∀ b ∈ a.blocks, ∀ b' ∈ x.blocks, b.bid ≠ b'.bid
   | _ => True
 
 theorem binv_step (s : St) (op : Op) (hI : Inv s) (hp : Pre s op) (hbp : BPreP s op) (hB : BInv s) :
@@ -1906,8 +2106,8 @@ theorem binv_step (s : St) (op : Op) (hI : Inv s) (hp : Pre s op) (hbp : BPreP s
     cases h : dischargeSwap s a o with
     | none => exact hB
     | some s' =>
-      exact binv_dischargeSwap s s' a o h hI hB hbp.1
-        (fun x hx e => absurd e (hnotin a hp x hx)) (fun x hx _ => hbp.2 x hx)
+      exact binv_dischargeSwap_fresh s s' a o h hI hB hbp.1 hbp.2.1
+        (fun x hx e => absurd e (hnotin a hp x hx)) (fun x hx _ => hbp.2.2 x hx)
   | dsfp i o =>
     simp only [step]
     split
@@ -1915,10 +2115,7 @@ theorem binv_step (s : St) (op : Op) (hI : Inv s) (hp : Pre s op) (hbp : BPreP s
       cases h : dischargeSwap s a o with
       | none => exact hB
       | some s' =>
-        have hmem : Holds s a := Or.inr (List.mem_of_find?_eq_some ha)
-        exact binv_dischargeSwap s s' a o h hI hB (hB.nostat a hmem)
-          (fun x hx e => holds_unique s hI x a hx hmem e)
-          (fun x hx hne => hB.disj a x hmem hx (Ne.symm hne))
+        exact binv_dischargeSwap_pooled s s' a o h hI hB (List.mem_of_find?_eq_some ha)
     · exact hB
   | remove i d =>
     simp only [step]
@@ -1952,10 +2149,9 @@ def BRunOK : St → List Op → Prop
 /-- **block lookups over arbitrary histories, purging included** (tracking on or off, `removeAssembly` with
 discharge or purge, swaps, cascades, discharge swaps, adds): every block of every assembly in the core or the pool
 is found in `blocksByName`, and `blocksByName` resolves nothing else — in particular no block of a purged assembly.
-Setting: the stationary-block feature is not in play (no held or charged assembly has a stationary block, e.g.
-`stationaryBlockFlags: []`); with stationary blocks the histories without purge are covered by
-`blocks_found_run_partial`; a fresh assembly carrying stationary blocks is the excluded point
-(`discharge-fresh-stationary-block-names`). -/
+Core and pool assemblies may carry stationary blocks (they change hands in swaps, cascades and discharge swaps);
+the only excluded point is a FRESH assembly carrying stationary blocks entering through `dischargeSwap`
+(`discharge-fresh-stationary-block-names`), stated as the `NoStat` clause of `BPreP`. -/
 theorem blocks_run_with_purge (ops : List Op) (s : St) (hI : Inv s) (hB : BInv s) (hok : BRunOK s ops) :
     BInv (run s ops) ∧ Inv (run s ops) := by
   induction ops generalizing s with
@@ -1964,7 +2160,7 @@ theorem blocks_run_with_purge (ops : List Op) (s : St) (hI : Inv s) (hB : BInv s
     exact ih (step s op) (inv_step s op hI hok.1) (binv_step s op hI hok.1 hok.2.1 hB) hok.2.2
 
 theorem binv_init (ks : List (Asm × Cell)) (sf : List Asm) (track : Bool)
-    (hns : ∀ a ∈ ks.map (·.1) ++ sf, NoStat a)
+    (hns : ∀ a ∈ ks.map (·.1) ++ sf, (a.blocks.map (·.bid)).Nodup)
     (hd : ∀ a ∈ ks.map (·.1) ++ sf, ∀ a' ∈ ks.map (·.1) ++ sf, a.id ≠ a'.id →
       ∀ b ∈ a.blocks, ∀ b' ∈ a'.blocks, b.bid ≠ b'.bid) : BInv (initSt ks sf track) := by
   have hh : ∀ a, Holds (initSt ks sf track) a ↔ a ∈ ks.map (·.1) ++ sf := by
@@ -1992,14 +2188,111 @@ theorem binv_init (ks : List (Asm × Cell)) (sf : List Asm) (track : Bool)
     obtain ⟨b, hb, hbx⟩ := hax
     exact ⟨a, (hh a).2 ha, b, hb, by simpa using hbx⟩
 
-/-! non-vacuity: a purge followed by a swap on a three-assembly core without stationary blocks, tracking off -/
+/-! non-vacuity: a purge, a swap and a pooled discharge swap on a three-assembly core WITH stationary blocks
+(grid plates at index 0), tracking off -/
 def exSt2 : St :=
-  initSt [(⟨1, [⟨10, false⟩, ⟨11, false⟩]⟩, (0, 0)), (⟨2, [⟨20, false⟩, ⟨21, false⟩]⟩, (1, 0)),
-          (⟨3, [⟨30, false⟩, ⟨31, false⟩]⟩, (2, -1))] [⟨9, [⟨90, false⟩, ⟨91, false⟩]⟩] false
+  initSt [(⟨1, [⟨10, true⟩, ⟨11, false⟩]⟩, (0, 0)), (⟨2, [⟨20, true⟩, ⟨21, false⟩]⟩, (1, 0)),
+          (⟨3, [⟨30, true⟩, ⟨31, false⟩]⟩, (2, -1))] [⟨9, [⟨90, true⟩, ⟨91, false⟩]⟩] false
 
 example : BInv (run exSt2 [.remove 3 false, .swap 1 2, .dsfp 9 1]) :=
   (blocks_run_with_purge _ exSt2 (inv_init _ _ _ (by decide) (by decide))
     (binv_init _ _ _ (by decide) (by decide))
     (by simp only [BRunOK, Pre, BPreP]; exact ⟨trivial, trivial, by decide, trivial, trivial, trivial, trivial⟩)).1
+
+
+/-! ### names: keys are the current names; the two name findings as theorems with witnesses -/
+
+private theorem find_rev_of_nodup (bs : List NBlk) (hnd : (bs.map (·.name)).Nodup) (b : NBlk) (hb : b ∈ bs) :
+    bs.reverse.find? (fun x => x.name = b.name) = some b := by
+  have hb' : b ∈ bs.reverse := List.mem_reverse.2 hb
+  cases hf : bs.reverse.find? (fun x => x.name = b.name) with
+  | none =>
+    have := List.find?_eq_none.1 hf b hb'
+    simp at this
+  | some c =>
+    have hc : c ∈ bs := List.mem_reverse.1 (List.mem_of_find?_eq_some hf)
+    have hcn : c.name = b.name := by simpa using List.find?_some hf
+    rw [List.inj_on_of_nodup_map hnd hc hb hcn]
+
+private theorem renumber_names (a : NAsm) (n : Int) :
+    ((renumber a n).blocks.map (·.name)) = (List.range a.blocks.length).map (fun k => (n, k)) := by
+  unfold renumber
+  simp only [List.map_map]
+  have : ∀ (l : List NBlk) (i : Nat), (l.zipIdx i).map ((fun b : NBlk => b.name) ∘ fun p => { p.1 with name := (n, p.2) })
+      = (List.range' i l.length).map (fun k => (n, k)) := by
+    intro l
+    induction l with
+    | nil => intro i; rfl
+    | cons x xs ih => intro i; simp [List.zipIdx_cons, List.range'_succ, ih]
+  rw [this a.blocks 0, List.range_eq_range']
+
+/-- **after `Core.add` of a fresh assembly (placeholder number < 0) the keys are the CURRENT names**: the assembly is
+named by the next assembly number and found under it; every block it holds is named (that number, its axial index)
+and found under exactly that name. -/
+theorem coreAdd_fresh_keys_current (s : NSt) (a : NAsm) (hneg : a.num < 0) :
+    (nCoreAdd s a).2.num = s.next ∧ (nCoreAdd s a).1.byName s.next = some a.id ∧ (nCoreAdd s a).1.next = s.next + 1 ∧
+    (∀ b ∈ (nCoreAdd s a).2.blocks, b.name.1 = s.next ∧ (nCoreAdd s a).1.bbn b.name = some b.bid) ∧
+    (nCoreAdd s a).2.blocks.map (·.bid) = a.blocks.map (·.bid) ∧
+    (nCoreAdd s a).2.blocks.map (·.name) = (List.range a.blocks.length).map (fun k => (s.next, k)) := by
+  have hnames := renumber_names a s.next
+  have hnd : ((renumber a s.next).blocks.map (·.name)).Nodup := by
+    rw [hnames]
+    exact List.Nodup.map (fun x y h => (Prod.mk.inj h).2) List.nodup_range
+  simp only [nCoreAdd, hneg, if_true]
+  refine ⟨by simp [renumber], by simp [renumber], trivial, ?_, ?_, hnames⟩
+  · intro b hb
+    constructor
+    · have : b.name ∈ (renumber a s.next).blocks.map (·.name) := List.mem_map.2 ⟨b, hb, rfl⟩
+      rw [hnames] at this
+      obtain ⟨k, _, hk⟩ := List.mem_map.1 this
+      rw [← hk]
+    · simp only [regBlocks, find_rev_of_nodup _ hnd b hb]
+  · unfold renumber
+    simp only [List.map_map]
+    conv_rhs => rw [← List.zipIdx_map_fst 0 a.blocks, List.map_map]
+    rfl
+
+/-- an assembly already numbered keeps its names: its blocks are found under the names they carry -/
+theorem coreAdd_numbered_keys (s : NSt) (a : NAsm) (hpos : ¬ a.num < 0) (hnd : (a.blocks.map (·.name)).Nodup) :
+    (nCoreAdd s a).2 = a ∧ (nCoreAdd s a).1.byName a.num = some a.id ∧
+    ∀ b ∈ a.blocks, (nCoreAdd s a).1.bbn b.name = some b.bid := by
+  simp only [nCoreAdd, hpos, if_false]
+  refine ⟨trivial, by simp, ?_⟩
+  intro b hb
+  simp only [regBlocks, find_rev_of_nodup _ hnd b hb]
+
+/-! witness: core assembly A0006 (grid plate + fuel), tables as after loading; fresh copy with placeholder -5 -/
+def wOut : NAsm := ⟨6, 6, [⟨60, (6, 0), true⟩, ⟨61, (6, 1), false⟩]⟩
+def wInc : NAsm := ⟨50, -5, [⟨500, (-5, 0), true⟩, ⟨501, (-5, 1), false⟩]⟩
+def wSt : NSt :=
+  ⟨fun n => if n = 6 then some 6 else none,
+   fun x => if x = (6, 0) then some 60 else if x = (6, 1) then some 61 else none, 77⟩
+
+/-- **finding `discharge-fresh-stationary-block-names`, in the model** (tracking on): after
+`dischargeSwap(fresh, A0006)` the pooled outgoing assembly holds block 500 under the name `B-5-000`, which
+`blocksByName` does not know; the incoming assembly is A0077 with blocks named B0077-000/001, both found. -/
+theorem finding_pooled_block_not_found :
+    let r := nDischarge wSt wInc wOut true
+    r.2.2.blocks.map (fun b => (b.bid, b.name)) = [(500, (-5, 0)), (61, (6, 1))] ∧ r.1.bbn (-5, 0) = none ∧
+    r.2.1.num = 77 ∧ r.2.1.blocks.map (fun b => (b.bid, b.name)) = [(60, (77, 0)), (501, (77, 1))] ∧
+    r.1.bbn (77, 0) = some 60 ∧ r.1.bbn (77, 1) = some 501 := by decide
+
+/-- **finding `stale-block-key-returns-purged-block`, in the model** (either tracking setting; shown with tracking
+off): the old key `B0006-000` still resolves to block 60, now called `B0077-000`; after the incoming assembly is
+purged (`_removeListFromAuxiliaries` deletes the CURRENT names) the old key still returns the purged block. -/
+theorem finding_stale_key_returns_purged :
+    let r := nDischarge wSt wInc wOut false
+    r.1.bbn (6, 0) = some 60 ∧ (r.2.1.blocks.map (fun b => (b.bid, b.name))).head? = some (60, (77, 0)) ∧
+    r.1.bbn (6, 1) = none ∧ r.1.byName 6 = none ∧
+    (nPurge r.1 r.2.1).bbn (77, 0) = none ∧ (nPurge r.1 r.2.1).bbn (6, 0) = some 60 := by decide
+
+/-- with the candidate repair (renumber and register the fresh assembly BEFORE the exchange) both disappear:
+every block of both assemblies is found under its current name and no key is stale -/
+theorem repaired_discharge_keys_current :
+    let a := (nCoreAdd wSt wInc)
+    let r := nDischarge a.1 a.2 wOut true
+    r.2.2.blocks.map (fun b => (b.bid, b.name)) = [(500, (77, 0)), (61, (6, 1))] ∧ r.1.bbn (77, 0) = some 500 ∧
+    r.2.1.blocks.map (fun b => (b.bid, b.name)) = [(60, (6, 0)), (501, (77, 1))] ∧ r.1.bbn (6, 0) = some 60 ∧
+    r.1.bbn (77, 1) = some 501 ∧ r.1.bbn (6, 1) = some 61 := by decide
 
 end ArmiVerif.Shuffle
